@@ -19,10 +19,10 @@ COMMON_ASSUME = [
 REG = {}
 
 REG["C01"] = dict(
-    harnesses=[H(P, "VerifH_C01_nullScanInt32"), H(P, "VerifH_C01_nullScanWordBoundary"), H(P, "VerifH_C01_dictionaryFallbackBuffer"), H(E + "delta", "VerifH_C04_deltaInt32", max_seconds={"quick": 400, "thorough": 2400})],
-    explanation="Kernel-wise decision of the write->read path. Decided by the solver on the real code: (K1) the null-run scanner of the typed optional write path (writeRowsFuncOfOptional closure + nullIndex + bitmap): for every vector of n values, the ranges handed to the column writer are contiguous, in order, cover every row once, and carry definition level d+1 exactly for non-zero rows, including windows that cross the 64-row bitmap word boundary after all-null / all-set / alternating prefixes. (K7) after a dictionary column falls back to PLAIN the buffer that takes the following values is configured for the same levels as the regular buffer (values with every level combination read back intact from both). (K5, shared with C04) the DELTA_BINARY_PACKED int32 encode/decode round trip for unrestricted values (first value and deltas at the int32 extremes included), one of the encodings every written value passes through; the other encodings are decided under C04. The end-to-end file round trip (reflection, Thrift, codecs, I/O) is outside the claim; bounds/indexes are decided under C05.",
+    harnesses=[H(P, "VerifH_C01_nullScanInt32"), H(P, "VerifH_C01_nullScanWordBoundary"), H(P, "VerifH_C01_dictionaryFallbackBuffer"), H(P, "VerifH_C08_rowGroupRowsSeekRead"), H(E + "delta", "VerifH_C04_deltaInt32", max_seconds={"quick": 400, "thorough": 2400})],
+    explanation="Kernel-wise decision of the write->read path. Decided by the solver on the real code: (K1) the null-run scanner of the typed optional write path (writeRowsFuncOfOptional closure + nullIndex + bitmap): for every vector of n values, the ranges handed to the column writer are contiguous, in order, cover every row once, and carry definition level d+1 exactly for non-zero rows, including windows that cross the 64-row bitmap word boundary after all-null / all-set / alternating prefixes. (K6) row assembly: rowGroupRows over real column buffers/pages returns each row with all its values and levels for flat and repeated columns (shared with C08). (K7) after a dictionary column falls back to PLAIN the buffer that takes the following values is configured for the same levels as the regular buffer (values with every level combination read back intact from both). (K5, shared with C04) the DELTA_BINARY_PACKED int32 encode/decode round trip for unrestricted values (first value and deltas at the int32 extremes included), one of the encodings every written value passes through; the other encodings are decided under C04. The end-to-end file round trip (reflection, Thrift, codecs, I/O) is outside the claim; bounds/indexes are decided under C05.",
     bounds={"quick": "n<=6 symbolic int32 rows; word-boundary windows: concrete prefix 60..63 rows x3 patterns + 2..4 symbolic rows", "thorough": "n<=10; windows up to 6 symbolic rows"},
-    outside=["whole-file round trip through reflection, Thrift and codecs", "page framing, row batching, dictionary fall-back (DESIGN K2-K7 not built yet)"],
+    outside=["whole-file round trip through reflection, Thrift and codecs", "page framing (K2), row batching (K3), buffer-to-page value readers per type (K4), page decode accounting (K5)"],
 )
 REG["C03"] = dict(
     harnesses=[H(P, "VerifH_C01_nullScanInt32"), H(P, "VerifH_C03_nullScanKinds"), H(P, "VerifH_C03_nullScanIntKinds")],
@@ -103,10 +103,10 @@ REG["C09"] = dict(
 )
 
 REG["C08"] = dict(
-    harnesses=[H(P, "VerifH_C08_filePagesSeekRead", max_paths={"quick": 400000, "thorough": 4000000}, max_seconds={"quick": 300, "thorough": 2400}), H(P, "VerifH_C08_mergedRowsSeek"), H(P, "VerifH_C08_columnPagesAcrossRowGroups")],
-    explanation="(K1) the seek/read state machine of FilePages (SeekToRow, ReadPage, serveLastPage/lastPage caching, skip accounting, buffered-stream repositioning) is executed on a real byte stream through the real io.SectionReader, bufio.Reader and readPage; only the Thrift page-header decode and the data-page body decoder are replaced by stubs (the header stub yields the header of the page that starts at the current stream position and flags a misaligned stream). Every history of seeks and reads in the bound is explored, with and without an offset index: the rows returned after the last SeekToRow(k) are rows k, k+1, ... and the stream stays aligned on page boundaries. Counterexamples are replayed literally through the public API on a real file whose pages have the model's row counts. (K5) SeekToRow on the rows of a merged row group followed by reads of any batch size returns the rows from the target on, rejects backward seeks and terminates. (K4) the file-level column reader (columnPages) chains the page readers of all row groups (modelled, one-row pages): after any history of seeks and reads the pages continue at the expected row across row-group boundaries and an error from a row group's reader is reported, not skipped; replayed literally on a real multi-row-group file.",
+    harnesses=[H(P, "VerifH_C08_filePagesSeekRead", max_paths={"quick": 400000, "thorough": 4000000}, max_seconds={"quick": 300, "thorough": 2400}), H(P, "VerifH_C08_mergedRowsSeek"), H(P, "VerifH_C08_columnPagesAcrossRowGroups"), H(P, "VerifH_C08_rowGroupRowsSeekRead")],
+    explanation="(K1) the seek/read state machine of FilePages (SeekToRow, ReadPage, serveLastPage/lastPage caching, skip accounting, buffered-stream repositioning) is executed on a real byte stream through the real io.SectionReader, bufio.Reader and readPage; only the Thrift page-header decode and the data-page body decoder are replaced by stubs (the header stub yields the header of the page that starts at the current stream position and flags a misaligned stream). Every history of seeks and reads in the bound is explored, with and without an offset index: the rows returned after the last SeekToRow(k) are rows k, k+1, ... and the stream stays aligned on page boundaries. Counterexamples are replayed literally through the public API on a real file whose pages have the model's row counts. (K5) SeekToRow on the rows of a merged row group followed by reads of any batch size returns the rows from the target on, rejects backward seeks and terminates. (K3) the row reader of a row group (rowGroupRows + columnChunkValueReader over a flat and a repeated real column buffer, value buffers of 2..3 values): for every history of SeekToRow / ReadRows with batch sizes 1..2 the rows returned are rows k, k+1, ... with all their values and levels. (K4) the file-level column reader (columnPages) chains the page readers of all row groups (modelled, one-row pages): after any history of seeks and reads the pages continue at the expected row across row-group boundaries and an error from a row group's reader is reported, not skipped; replayed literally on a real multi-row-group file.",
     bounds={"quick": "K1: 1..3 pages of 1..2 rows, histories of 4 operations (seek to any row incl. the end, or read), offset index present/absent; K5: <=6 rows, batch 1..4, 2 operations", "thorough": "K1: pages of 1..3 rows, 5 operations; K5: 3 operations"},
-    outside=["asynchronous read mode (C15)", "encrypted ordinals (C18)", "v1 pages that continue a row from the previous page, dictionary pages in the stream", "page slicing (K2), rowGroupRows and range views (K3, K4) not built yet"],
+    outside=["asynchronous read mode (C15)", "encrypted ordinals (C18)", "v1 pages that continue a row from the previous page, dictionary pages in the stream", "page slicing on its own (K2) and range views (rangePages, multi row group) not built"],
     assumptions=["K1: stubs for thrift.Decoder.Decode (header of the page at the current stream position) and FilePages.readDataPageV2 (model page identified by the body bytes)"],
 )
 
